@@ -339,6 +339,221 @@ func TestBlindSpots(t *testing.T) {
 	}
 }
 
+// shapes of the harmless-rewrite battery (review_rf_netutil 13–16, 18) and their racy counterparts
+const lockSrc2 = `package p
+
+import "sync"
+
+type state struct {
+	sync.RWMutex
+	mode int
+	list [8][2]int
+	maps [4]map[int]bool
+}
+
+type U struct {
+	hits int
+	st   state
+}
+
+func NewU() *U { return &U{st: state{mode: 1}} }
+
+func (u *U) Set() {
+	u.st.Lock()
+	defer u.st.Unlock()
+	u.st.mode = 2
+	u.st.maps[0][1] = true
+}
+
+func (u *U) Get() int {
+	u.st.RLock()
+	defer u.st.RUnlock()
+	return u.st.mode
+}
+
+func (u *U) GetUnlocked() int { return u.st.mode }
+
+type V struct {
+	mu   sync.RWMutex
+	n    int
+	list [8][2]int
+	maps [4]map[int]bool
+}
+
+// B1: defer v.lock()()
+func (v *V) lock() func()  { v.mu.Lock(); return v.mu.Unlock }
+func (v *V) rlock() func() { v.mu.RLock(); return v.mu.RUnlock }
+func (v *V) SetDeferLock() {
+	defer v.lock()()
+	v.n = 1
+}
+func (v *V) GetDeferRLock() int {
+	defer v.rlock()()
+	return v.n
+}
+func (v *V) SetUnlockVar() {
+	unlock := v.lock()
+	v.n = 2
+	unlock()
+	v.n = 3 // after the unlock: unguarded
+}
+
+// B2: function literal run by an own method under the lock
+func (v *V) update(fn func()) {
+	v.mu.Lock()
+	defer v.mu.Unlock()
+	fn()
+}
+func (v *V) view(fn func() int) int {
+	v.mu.RLock()
+	defer v.mu.RUnlock()
+	return fn()
+}
+func (v *V) later(fn func()) { go fn() }
+func (v *V) SetUpdate()     { v.update(func() { v.n = 4 }) }
+func (v *V) GetView() int   { return v.view(func() int { return v.n }) }
+func (v *V) SetLater()      { v.later(func() { v.n = 5 }) }
+
+// B4: local alias of the lock
+func (v *V) SetAlias() {
+	mu := &v.mu
+	mu.Lock()
+	defer mu.Unlock()
+	v.n = 6
+}
+func (v *V) SetAliasEscapes() {
+	mu := &v.mu
+	mu.Lock()
+	hand(mu)
+	v.n = 7
+}
+
+// B5: pointers into arrays, slices of arrays, range over a pointer to an array
+func (v *V) SetThroughPointers() {
+	v.mu.Lock()
+	defer v.mu.Unlock()
+	list, maps := &v.list, &v.maps
+	list[0] = [2]int{1, 2}
+	for i := range maps {
+		maps[i] = map[int]bool{}
+	}
+	l2 := v.list[:4]
+	for i := range l2 {
+		if e := &l2[i]; e[0] == 1 {
+			*e = [2]int{0, 0}
+		}
+	}
+}
+func (v *V) GetThroughPointers() bool {
+	v.mu.RLock()
+	defer v.mu.RUnlock()
+	l2 := v.list[:4]
+	for i := range l2 {
+		if e := &l2[i]; e[1] > 0 {
+			return true
+		}
+	}
+	for i, set := range &v.maps {
+		if set[i] {
+			return true
+		}
+	}
+	return false
+}
+func (v *V) WriteUnderRLock() {
+	v.mu.RLock()
+	defer v.mu.RUnlock()
+	l2 := v.list[:4]
+	for i := range l2 {
+		if e := &l2[i]; e[1] > 0 {
+			*e = [2]int{0, 0}
+		}
+	}
+}
+
+func hand(*sync.RWMutex) {}
+`
+
+func runLocksSrc(t *testing.T, src, typ string) []rec {
+	t.Helper()
+	return parseRecs(runLocks(t, src, typ, "-"))
+}
+
+func TestRewriteShapes(t *testing.T) {
+	// B3: mutex embedded in a nested struct field
+	ru := runLocksSrc(t, lockSrc2, "U")
+	if bad := disciplineFails(ru, "Set", "Get"); len(bad) != 0 {
+		t.Errorf("embedded mutex in a nested struct: fails on %v", bad)
+	}
+	if bad := disciplineFails(ru, "Set", "Get", "GetUnlocked"); len(bad) == 0 {
+		t.Errorf("unlocked read of u.st.mode must fail")
+	}
+	found := false
+	for _, r := range ru {
+		if r.fn == "Set" && r.loc == "st.mode" && r.write && r.held["st.RWMutex"] == "Ex" {
+			found = true
+		}
+	}
+	if !found {
+		t.Errorf("u.st.mode = 2 under u.st.Lock() not recorded as a write of st.mode under st.RWMutex:Ex")
+	}
+	rv := runLocksSrc(t, lockSrc2, "V")
+	pass := [][]string{
+		{"SetDeferLock", "GetDeferRLock"},            // B1
+		{"SetUpdate", "GetView", "SetDeferLock"},     // B2
+		{"SetAlias", "GetDeferRLock"},                // B4
+		{"SetThroughPointers", "GetThroughPointers"}, // B5
+	}
+	for _, sc := range pass {
+		if bad := disciplineFails(rv, sc...); len(bad) != 0 {
+			t.Errorf("scope %v is race free but fails on %v", sc, bad)
+		}
+	}
+	fail := [][]string{
+		{"SetUnlockVar", "GetDeferRLock"},         // write after unlock()
+		{"SetLater", "GetDeferRLock"},             // closure run in a goroutine by the own method
+		{"SetAliasEscapes", "GetDeferRLock"},      // lock alias handed to other code
+		{"WriteUnderRLock", "GetThroughPointers"}, // *e = … through a pointer into a slice of the array, under RLock
+	}
+	for _, sc := range fail {
+		if bad := disciplineFails(rv, sc...); len(bad) == 0 {
+			t.Errorf("scope %v is racy but the discipline passes", sc)
+		}
+	}
+	// the write through the pointer is a WRITE of the field with the lock held there
+	w := false
+	for _, r := range rv {
+		if r.fn == "WriteUnderRLock" && r.loc == "list" && r.write && r.held["mu"] == "Sh" {
+			w = true
+		}
+	}
+	if !w {
+		t.Errorf("*e = … under RLock must be recorded as a write of list held Sh")
+	}
+}
+
+// B6: the struct type may live in another file than the one named
+func TestTypeInOtherFile(t *testing.T) {
+	dir := t.TempDir()
+	os.MkdirAll(filepath.Join(dir, "p"), 0o755)
+	os.WriteFile(filepath.Join(dir, "p", "x.go"), []byte("package p\nfunc (t *T) Get() int { return t.n }\n"), 0o644)
+	os.WriteFile(filepath.Join(dir, "p", "types.go"), []byte("package p\ntype T struct{ n int }\n"), 0o644)
+	out := filepath.Join(dir, "out.txt")
+	f, _ := os.Create(out)
+	saved := os.Stdout
+	os.Stdout = f
+	err := cmdLocks(dir, "p/x.go", "T", "-")
+	os.Stdout = saved
+	f.Close()
+	if err != nil {
+		t.Fatal(err)
+	}
+	b, _ := os.ReadFile(out)
+	if !strings.Contains(string(b), `mkAcc "Get" "n" false false [] false`) {
+		t.Errorf("type declared in another file: %s", b)
+	}
+}
+
 const launchFixed = `package daemon
 func launch(name string) {
 	interrupt := make(chan os.Signal, 1)
@@ -396,6 +611,28 @@ func runLaunch(t *testing.T, src string) string {
 	return lines[len(lines)-1]
 }
 
+func TestLaunchDoneInOtherFile(t *testing.T) {
+	dir := t.TempDir()
+	os.MkdirAll(filepath.Join(dir, "daemon"), 0o755)
+	i := strings.Index(launchFixed, "func Done()")
+	os.WriteFile(filepath.Join(dir, "daemon", "daemon.go"), []byte(launchFixed[:i]), 0o644)
+	os.WriteFile(filepath.Join(dir, "daemon", "done.go"), []byte("package daemon\n"+launchFixed[i:]), 0o644)
+	out := filepath.Join(dir, "out.txt")
+	f, _ := os.Create(out)
+	saved := os.Stdout
+	os.Stdout = f
+	err := cmdLaunch(dir)
+	os.Stdout = saved
+	f.Close()
+	if err != nil {
+		t.Fatal(err)
+	}
+	b, _ := os.ReadFile(out)
+	if !strings.Contains(string(b), "[ANotify; AStart; AWritePid; ASpawnWait; ASelect]") || !strings.Contains(string(b), "hook launch.afterStart: present") {
+		t.Errorf("Done in another file: %s", b)
+	}
+}
+
 func TestLaunch(t *testing.T) {
 	if got := runLaunch(t, launchFixed); got != "[ANotify; AStart; AWritePid; ASpawnWait; ASelect]" {
 		t.Errorf("fixed order: %s", got)
@@ -444,6 +681,98 @@ func TestLaunch(t *testing.T) {
 	late = strings.Replace(late, "\tcase <-interrupt:\n\t}\n}", "\tcase <-interrupt:\n\t}\n\tbinary.Write(os.Stdout, binary.LittleEndian, uint32(cmd.Process.Pid))\n}", 1)
 	if got := runLaunch(t, late); got != "[ANotify; AStart; ASpawnWait; ASelect; AWritePid]" {
 		t.Errorf("late WritePid: %s", got)
+	}
+	// harmless-rewrite battery (review_rf_util d2-d7)
+	// d2/d7: chan error waiter, stderr written in the select arm, pid via PutUint32 + os.Stdout.Write, fmt to stderr
+	d2 := `package daemon
+var launches atomic.Int64
+func launch(name string) {
+	sigCh := make(chan os.Signal, 1)
+	signal.Notify(sigCh, syscall.SIGINT)
+	defer signal.Stop(sigCh)
+	launches.Add(1)
+	cmd := exec.Command(os.Args[0])
+	cmd.Env = roleEnv(name, "isDaemon")
+	err := cmd.Start()
+	if err != nil {
+		fmt.Fprint(os.Stderr, "start daemon: "+err.Error())
+		return
+	}
+	var pid [4]byte
+	binary.LittleEndian.PutUint32(pid[:], uint32(cmd.Process.Pid))
+	os.Stdout.Write(pid[:])
+	verifPause("launch.afterStart")
+	exited := make(chan error, 1)
+	go func() { exited <- cmd.Wait() }()
+	select {
+	case err := <-exited:
+		if err != nil {
+			fmt.Fprint(os.Stderr, "daemon: "+err.Error())
+		}
+	case <-sigCh:
+	}
+}
+func roleEnv(name, role string) []string { return append(os.Environ(), "A="+name, "B="+role) }
+func Done() error {
+	p, err := os.FindProcess(os.Getppid())
+	if err != nil {
+		return err
+	}
+	return p.Signal(os.Interrupt)
+}
+`
+	if got := runLaunch(t, d2); got != "[ANotify; AStart; AWritePid; ASpawnWait; ASelect]" {
+		t.Errorf("d2 shape: %s", got)
+	}
+	// d3: helpers startDaemon / awaitDone inlined (the Notify channel travels as a parameter)
+	d3 := `package daemon
+func startDaemon(name string) (*exec.Cmd, error) {
+	cmd := exec.Command(os.Args[0])
+	if err := cmd.Start(); err != nil {
+		return nil, err
+	}
+	return cmd, nil
+}
+func awaitDone(cmd *exec.Cmd, intr <-chan os.Signal) {
+	finished := make(chan struct{})
+	go func() {
+		if err := cmd.Wait(); err != nil {
+			os.Stderr.Write([]byte("daemon: " + err.Error()))
+		}
+		close(finished)
+	}()
+	select {
+	case <-finished:
+	case <-intr:
+	}
+}
+func launch(name string) {
+	interrupt := make(chan os.Signal, 1)
+	signal.Notify(interrupt, os.Interrupt)
+	defer signal.Stop(interrupt)
+	cmd, err := startDaemon(name)
+	if err != nil {
+		os.Stderr.Write([]byte("start daemon: " + err.Error()))
+		return
+	}
+	binary.Write(os.Stdout, binary.LittleEndian, uint32(cmd.Process.Pid))
+	verifPause("launch.afterStart")
+	awaitDone(cmd, interrupt)
+}
+func Done() error { p, _ := os.FindProcess(os.Getppid()); return p.Signal(os.Interrupt) }
+`
+	if got := runLaunch(t, d3); got != "[ANotify; AStart; AWritePid; ASpawnWait; ASelect]" {
+		t.Errorf("d3 shape: %s", got)
+	}
+	// still alarms: a helper that touches os/exec in an unknown way, a timer in an inlined helper, cmd.Stderr set
+	for _, m := range []struct{ old, new, want string }{
+		{"\tawaitDone(cmd, interrupt)\n", "\tcmd.Process.Kill()\n\tawaitDone(cmd, interrupt)\n", `AUnknown "call cmd.Process.Kill`},
+		{"\tcase <-intr:\n", "\tcase <-intr:\n\tcase <-time.After(time.Second):\n", `AUnknown "select case <-time.After()`},
+		{"\tif err := cmd.Start(); err != nil {\n\t\treturn nil, err", "\tcmd.Stderr = os.Stderr\n\tif err := cmd.Start(); err != nil {\n\t\treturn nil, err", `AUnknown "field Stderr`},
+	} {
+		if got := runLaunch(t, strings.Replace(d3, m.old, m.new, 1)); !strings.Contains(got, m.want) {
+			t.Errorf("expected %s in %s", m.want, got)
+		}
 	}
 	extra := strings.Replace(launchFixed, "\tverifPause(", "\tos.Exit(0)\n\tverifPause(", 1)
 	if got := runLaunch(t, extra); !strings.Contains(got, `AUnknown "call os.Exit`) {
